@@ -134,7 +134,10 @@ def run_one(args):
                 mod = importlib.import_module('nvstat.props.' + prop)
                 with redirect_stdout(io.StringIO()):
                     mod.run(ctx)
-                if ctx.failures():
+                from nvstat.core import load_known
+                known = {(k.get('rule'), k.get('construct')) for k in load_known()
+                         if k.get('property') == prop and k.get('status') == 'known'}
+                if [o for o in ctx.failures() if (o.rule, o.construct) not in known]:
                     res[prop] = 1
                 elif ctx.floor_failures:
                     res[prop] = 2
